@@ -26,7 +26,7 @@ PickTrace == blk > 0 /\ tid = 0
 Next == PickBlock \/ PickTrace
 
 FailingRec(r) ==
-    {(IF ~FOInsideTypes(r.pre, r.op) THEN "outside/" ELSE IF FOGating(r.op) THEN "" ELSE "nongating/") \o cl :
+    {(IF ~FOGating(r.op) THEN "nongating/" ELSE IF FOInsideTypes(r.pre, r.op) THEN "" ELSE "outside/") \o cl :
         cl \in FOFailing(r.pre, r.op, r.obs)}
 
 Check == tid > 0 =>
